@@ -88,3 +88,11 @@ proof fn lemma_key_inverse(k: i32)
     ensures mk_key(k_type(k), k_id(k)) == k,
 {
 }
+
+// uuid::Uuid as an opaque 128-bit value; item_data_to_uuid by contract (inverse of uuid_to_item_data: Kani complete_uuid_roundtrip)
+pub type Uuid = u128;
+pub uninterp spec fn spec_uuid(data: Seq<i32>) -> Option<Uuid>;
+#[verifier::external_body]
+fn item_data_to_uuid<W: Warn<Warning>>(warn: &mut W, data: &[i32]) -> (r: Option<Uuid>)
+    ensures r == spec_uuid(data@),
+{ unimplemented!() }
